@@ -369,6 +369,30 @@ pub fn hyphen_configs() -> Vec<Conv> {
         c.args.push(m);
         c
     });
+    // the same language with one value hidden from help, as a list and as a value enum
+    for (name, enumerated) in [("values:possible-values-hidden", false), ("values:value-enum-hidden-variant", true)] {
+        push(name, {
+            let mut c = CmdSpec::new("prog");
+            c.args.push(ArgSpec::flag("a", Some('a'), Some("alpha")));
+            let pv = || if enumerated {
+                Vp::Enum
+            } else {
+                Vp::Pv(vec![
+                    PvSpec { name: "fast".into(), aliases: vec!["quick".into()], ..Default::default() },
+                    PvSpec { name: "slow".into(), aliases: vec!["lazy".into()], hide: true, ..Default::default() },
+                ])
+            };
+            let mut o = ArgSpec::opt("o", Some('o'), Some("opt"));
+            o.parser = pv();
+            o.ignore_case = true;
+            c.args.push(o);
+            let mut m = ArgSpec::opt("m", Some('m'), Some("mode"));
+            m.parser = pv();
+            m.default = vec!["slow".into()];
+            c.args.push(m);
+            c
+        });
+    }
     // settings made on the root only, documented to reach every descendant; used two levels down
     push("nested:inherited-settings", {
         let mut c = CmdSpec::new("prog");
@@ -432,7 +456,7 @@ pub fn nested_alphabet() -> Vec<Vec<u8>> {
 }
 
 pub fn values_alphabet() -> Vec<Vec<u8>> {
-    ["--opt=fast", "--opt=FAST", "--opt=quick", "--opt=QUICK", "--opt=Quick", "--opt=slow", "--opt=bogus", "--opt=", "-o", "QUICK", "quick", "-oQuick", "--mode=quick", "--mode=QUICK", "--mode=fast", "-m", "-a"]
+    ["--opt=fast", "--opt=FAST", "--opt=quick", "--opt=QUICK", "--opt=Quick", "--opt=slow", "--opt=bogus", "--opt=", "-o", "QUICK", "quick", "-oQuick", "--mode=quick", "--mode=QUICK", "--mode=fast", "-m", "-a", "--mode=slow", "--opt=LAZY"]
         .iter()
         .map(|s| s.as_bytes().to_vec())
         .collect()
